@@ -346,7 +346,7 @@ func c03FeatGen(g *hx.Gen) {
 	}
 
 	// (b) valid files under mutations, (a) arbitrary bytes ---------------------------
-	n := g.Scale(12000, 2000000)
+	n := g.Scale(12000, 150000)
 	for k := 0; k < n && !g.Done(); k++ {
 		switch g.Intn(10) {
 		case 0: // arbitrary bytes
